@@ -10,6 +10,7 @@ import (
 	"runtime/debug"
 	"strings"
 	"sync"
+	"sync/atomic"
 	"time"
 
 	"github.com/Syuparn/pangaea/ast"
@@ -122,10 +123,15 @@ type Opts struct {
 	Env    *object.Env // run in this scope instead of a fresh one
 	// KeepNotImplemented leaves the shared `_` error object as earlier programs left it (C19 only).
 	KeepNotImplemented bool
+	// KeepLabel leaves the watchdog label as the caller set it
+	KeepLabel bool
 }
 
 // Run parses and evaluates src in a fresh scope under the budget.
 func (in *Interp) Run(src string, o Opts) Outcome {
+	if !o.KeepLabel {
+		Label.Store(src)
+	}
 	prog, err := Parse(src)
 	if err != nil {
 		if strings.HasPrefix(err.Error(), "HOST-PANIC") {
@@ -135,6 +141,10 @@ func (in *Interp) Run(src string, o Opts) Outcome {
 	}
 	return in.EvalNode(prog, o)
 }
+
+// Label describes the evaluation in progress (set by callers that build AST nodes by hand); the watchdog prints it
+// when an evaluation cannot be stopped, so that the culprit is known.
+var Label atomic.Value
 
 var watchdogOnce sync.Once
 var wdMu sync.Mutex
@@ -156,7 +166,7 @@ func startWatchdog() {
 				evaluator.VerifExhaust()
 			}
 			if now.After(h) {
-				fmt.Fprintln(os.Stderr, "VERIF-WATCHDOG: evaluation did not stop after the budget was exhausted; aborting process (inconclusive)")
+				fmt.Fprintln(os.Stderr, "VERIF-WATCHDOG: evaluation did not stop after the budget was exhausted; aborting process (inconclusive). In progress:", Label.Load())
 				os.Exit(3)
 			}
 			var ms runtime.MemStats
@@ -267,8 +277,67 @@ func panicFrame() string {
 	return "?"
 }
 
+// printBudget bounds the number of nodes a value may expand to when printed. Values that share
+// sub-structures ([x, x] nested 40 deep) are tiny in memory but print exponentially large; printing
+// them is the program's own memory use, not a host crash, so the harness does not attempt it.
+const printBudget = 200000
+
+// printCost counts the nodes of the printed form (shared parts counted every time), stopping at the budget.
+func printCost(o object.PanObject, left *int) {
+	if *left <= 0 || o == nil {
+		return
+	}
+	*left--
+	switch v := o.(type) {
+	case *object.PanArr:
+		for _, e := range v.Elems {
+			printCost(e, left)
+		}
+	case *object.PanObj:
+		if v.Pairs != nil {
+			for _, p := range *v.Pairs {
+				printCost(p.Value, left)
+			}
+		}
+	case *object.PanMap:
+		if v.Pairs != nil {
+			for _, p := range *v.Pairs {
+				printCost(p.Key, left)
+				printCost(p.Value, left)
+			}
+		}
+		if v.NonHashablePairs != nil {
+			for _, p := range *v.NonHashablePairs {
+				printCost(p.Key, left)
+				printCost(p.Value, left)
+			}
+		}
+	case *object.PanRange:
+		printCost(v.Start, left)
+		printCost(v.Stop, left)
+		printCost(v.Step, left)
+	case *object.PanStr:
+		*left -= len(v.Value) / 64
+	}
+}
+
+// TooLargeToPrint reports whether printing o would expand to more than the print budget.
+func TooLargeToPrint(o object.PanObject) (big bool) {
+	defer func() {
+		if recover() != nil {
+			big = false
+		}
+	}()
+	left := printBudget
+	printCost(o, &left)
+	return left <= 0
+}
+
 // SafeInspect calls Inspect under recover.
 func SafeInspect(o object.PanObject) (s string) {
+	if TooLargeToPrint(o) {
+		return "<value too large to print>"
+	}
 	defer func() {
 		if p := recover(); p != nil {
 			s = fmt.Sprintf("HOST-PANIC in Inspect: %v", p)
@@ -282,6 +351,9 @@ func SafeInspect(o object.PanObject) (s string) {
 
 // SafeRepr calls Repr under recover.
 func SafeRepr(o object.PanObject) (s string) {
+	if TooLargeToPrint(o) {
+		return "<value too large to print>"
+	}
 	defer func() {
 		if p := recover(); p != nil {
 			s = fmt.Sprintf("HOST-PANIC in Repr: %v", p)
